@@ -16,7 +16,7 @@ PROP = {'suites': ['c16'],
          'Deterministic scenario scenarioCibaLifetime: per poll / ping client, runs of pending and slow_down polls, then approval before and after the lifetime (clauses 7, 8). ',
  'note': 'Theorems are about the hand-written model (coq/Model); the model is tied to the Go code by the correspondence runs only as far as the generators reach (counts in the evidence). Crypto, '
          'parsers and the clock are modelled (DESIGN.md section 8). ciba_once assumes the embedder calls the Notify API with non-empty ids (wf_op). Only login_hint is sent as hint; signed request '
-         'objects at /bc-authorize are covered by C07.',
+         'objects at /bc-authorize are covered by C07. Round 4: `ciba_poll_bound` speaks of ba_approves (plain approval, or approval that fixes a narrower grant: BaNarrow); clause 3 uses the same predicate.',
  'technique': 'Coq proof (rely/guarantee index discipline + ghost-state invariant by induction over operation histories; per-request decision rules by symbolic execution of the handler program) tied '
               "to the code by differential correspondence; the theorem's executable predicate is also evaluated on the implementation's traces",
  'design_ref': 'DESIGN.md section 6, C16'}
